@@ -630,7 +630,9 @@ impl<'a, 'b> GsubHandler<'a, 'b> {
             // We didn't find any substitutions for our blue strings so
             // we ignore the style. Clear the GSUB marker for any touched
             // glyphs
-            for glyph in &mut self.glyph_styles[range] {
+            // the lookups may name glyphs beyond the glyph count
+            let len = self.glyph_styles.len();
+            for glyph in &mut self.glyph_styles[range.start.min(len)..range.end.min(len)] {
                 glyph.clear_from_gsub();
             }
             None
